@@ -29,6 +29,8 @@ run_directed = directed.run
 
 def cases(tier, rng):
     thorough = tier == "thorough"
+    for c in directed.property_inherited_into_class_with_invariants_cases():
+        yield "directed-property-inherited-into-class-with-invariants", c
     for c in directed.separation_in_every_interpreter_mode_cases():
         yield "directed-separation-in-every-interpreter-mode", c
     for c in directed.recreated_class_cases():
@@ -205,7 +207,11 @@ def spec(case, mos, io):
                     K, key = owner
                     declared = dict((o["k"], set(kk for kk, _m in o["ns"])) for o in ops if o["op"] == "class")
                     prov = next((a for a in mro.get(k, [k]) if key in declared.get(a, ())), None)
-                    if prov == K:
+                    # (what the member REALLY resolves to: the library may have bound a base's function on an intermediate
+                    # class when that class was given an invariant - the C04 copy-down finding; a class whose member is
+                    # the decorated function itself sees the decoration like the owner does)
+                    real = (is_.get("fids") or {}).get(str(k), {}).get(key)
+                    if prov == K or real == op["f"]:
                         strip = lambda cc: {**cc, "members": [mm for mm in cc["members"] if mm[0] != key]}  # noqa: E731
                         if strip(c) == strip(before[k]):
                             continue
